@@ -223,6 +223,9 @@ def run_job(job, cap=5):
                 res['outcomes'][okey] = res['outcomes'].get(okey, 0) + 1
                 res['states'].add(h64((tag, 'io', i, mode)))
                 after_arch = r['after'].get(an, b'')
+                # compare with the pre-append bytes of *this* run (each run builds its own
+                # recorder, whose warcinfo member carries its own gzip timestamp)
+                before_arch = r['before'].get(an, b'')
                 journals = [f for f in r['after'] if f.endswith('-wpullinc')]
                 where = '%s of %s (op %d/%d, %s)' % (op['op'], op['path'], i, len(ops), mode)
                 if r['exc'] and r['exc'].startswith('UNEXPECTED'):
